@@ -70,6 +70,8 @@ def consumer(check, repo, key, modname, qual, self_spec, args, want_kw, what, in
 
 def run(check, ctx):
     repo = ctx.repo
+    selection_rows(check, repo)
+    dsa_private_key_rows(check, repo)
     ORDER, PRIME = 1000003, 1000033
     RF = ABuiltin("vstat.rf")
     DSS = "Crypto.Signature.DSS"
@@ -158,3 +160,116 @@ def run(check, ctx):
     check.count("randfunc_call_sites", nsites)
     if nsites < 15:
         raise AnalysisError("P7 saw only %d call sites that accept a randfunc" % nsites)
+
+
+def selection_rows(check, repo):
+    """StrongRandom.sample / shuffle / choice on tapes of randrange() results, against the textbook algorithms:
+    sample = draw an index uniformly and redraw it while it was already taken (anything else - e.g. stepping to the
+    next free index - is not uniform over the k-subsets); shuffle = Fisher-Yates from the top; choice = one draw."""
+    from ..absint import Interp
+    from ..absstate import State
+    RND = "Crypto.Random.random"
+    mod = repo.module(RND)
+    cls = repo.cls(mod, "StrongRandom")
+    wrong = []
+    n = 0
+
+    def run(meth, args, tape):
+        draws = []
+        t = list(tape)
+
+        def mm_rr(i, a, kw, st, node):
+            draws.append(tuple(a))
+            return t.pop(0) if t else 0
+        it = Interp(repo, max_depth=2, extra_models={RND + ".StrongRandom.randrange": mm_rr})
+        st = State()
+        me = it.new_obj(st, mod, cls, havoc=False)
+        res = it.run(mod, repo.func(mod, "StrongRandom." + meth), args, self_obj=me, state=st)
+        return res, draws, t
+    pop = ["a", "b", "c", "d", "e"]
+    for k, tape in ((2, [1, 3]), (2, [1, 1, 1, 4]), (3, [0, 0, 0, 4, 4, 0, 2]), (3, [4, 4, 3, 3, 4, 0]), (5, [0, 1, 0, 2, 1, 3, 3, 4]), (1, [2]), (0, [])):
+        res, draws, left = run("sample", {"population": list(pop), "k": k}, tape)
+        n += 1
+        want, taken, tt = [], set(), list(tape)
+        while len(want) < k:
+            r = tt.pop(0)
+            if r in taken:
+                continue
+            taken.add(r)
+            want.append(pop[r])
+        rets = res.returns()
+        got = rets[0].value if len(rets) == 1 and not res.raises() else "<%d exits>" % len(rets)
+        if got != want or len(left) != len(tt) or any(d not in ((5,), (0, 5)) for d in draws):
+            wrong.append("sample(5 items, %d) on draws %s returns %r after %d draws; drawing uniformly and redrawing taken indices gives %r after %d" % (
+                k, tape, got, len(tape) - len(left), want, len(tape) - len(tt)))
+    res, draws, left = run("sample", {"population": list(pop), "k": 6}, [0] * 10)
+    n += 1
+    if not res.rejected():
+        wrong.append("sample(5 items, 6) is not refused")
+    for tape in ([0, 0, 0, 0], [4, 3, 2, 1], [2, 0, 1, 1], [1, 3, 0, 0]):
+        x = list(pop)
+        res, draws, left = run("shuffle", {"x": x}, tape)
+        n += 1
+        want = list(pop)
+        for i, j in zip(range(4, 0, -1), tape):
+            want[i], want[j] = want[j], want[i]
+        rets = res.returns()
+        got = rets[0].state.frames[0].get("x") if rets else None
+        bounds = [d for d in draws]
+        ok_bounds = bounds == [(0, i + 1) for i in range(4, 0, -1)] or bounds == [(i + 1,) for i in range(4, 0, -1)]
+        if got != want or not ok_bounds:
+            wrong.append("shuffle on draws %s gives %r (draw ranges %s); Fisher-Yates gives %r with j uniform in [0, i]" % (tape, got, bounds, want))
+    for r in (0, 4):
+        res, draws, left = run("choice", {"seq": list(pop)}, [r])
+        n += 1
+        rets = res.returns()
+        if not rets or rets[0].value != pop[r] or draws not in ([(5,)], [(0, 5)]):
+            wrong.append("choice with draw %d returns %r (draws %s)" % (r, rets[0].value if rets else None, draws))
+    res, draws, left = run("choice", {"seq": []}, [0])
+    n += 1
+    if not (res.rejected() and "IndexError" in res.raise_classes()):
+        wrong.append("choice of an empty sequence is not refused with IndexError")
+    fn = repo.func(mod, "StrongRandom.sample")
+    check.ob("K-pw", "K-pw|random.selection", not wrong, mod.path, fn.lineno,
+             extracted="; ".join(wrong[:3]) if wrong else "%d tapes: sample redraws on a collision, shuffle is Fisher-Yates with j uniform in [0, i], choice is one uniform draw" % n,
+             expected="each result is the image of the draws under the textbook algorithm; with uniform draws every k-subset / permutation / element is equally likely")
+
+
+def dsa_private_key_rows(check, repo):
+    """DSA.generate: x = (c mod (q-1)) + 1 with c of N+64 random bits (FIPS 186-4 B.1.1), so that 1 <= x <= q-1."""
+    from ..absint import Interp
+    from ..absstate import State
+    DSA = "Crypto.PublicKey.DSA"
+    mod = repo.module(DSA)
+    fn = repo.func(mod, "generate")
+    q = (1 << 159) + 0x1234567       # stands for a 160-bit prime; the domain checks are modelled away
+    p = (1 << 1023) + 0x10001
+    wrong = []
+    n = 0
+    for c in (0, 1, q - 2, q - 1, q, q + 1, 2 * (q - 1), 2 * q, 5 * q, (1 << 223) + 7, (q - 1) * 12345 + (q - 2)):
+        seen = {}
+
+        def m_key(i, a, kw, st, node, seen=seen):
+            seen["dict"] = a[0] if a else None
+            return i.new_obj(st, label="key")
+
+        def m_random(i, a, kw, st, node, c=c, seen=seen):
+            seen["bits"] = kw.get("exact_bits")
+            return c
+        it = Interp(repo, max_depth=2, extra_models={
+            DSA + ".DsaKey": m_key, DSA + ".test_probable_prime": lambda i, a, kw, st, node: 1,
+            "Crypto.Math.Primality.test_probable_prime": lambda i, a, kw, st, node: 1,
+            "Crypto.Math._IntegerGMP.IntegerGMP.random": m_random, "Crypto.Math._IntegerBase.IntegerBase.random": m_random})
+        it.inject = {"pow(g, q, p) != 1": False, "(p - 1) % q != 0": False, "pow(g, x, p)": 4}
+        res = it.run(mod, fn, {"bits": 1024, "randfunc": UNK, "domain": (p, q, 2)})
+        n += 1
+        d = seen.get("dict")
+        x = d.get("x") if isinstance(d, dict) else None
+        want = c % (q - 1) + 1
+        if x != want or seen.get("bits") != 160 + 64:
+            wrong.append("c = %s: x = %r (random bits requested: %r), FIPS 186-4 B.1.1 gives (c mod (q-1)) + 1 = %s from %d bits" % (
+                ("q%+d" % (c - q)) if abs(c - q) < 5 else "~2^%d" % c.bit_length(), (x if x is None or x < 100 else "~2^%d" % x.bit_length()),
+                seen.get("bits"), want if want < 100 else "~2^%d" % want.bit_length(), 224))
+    check.ob("K-pw", "K-pw|dsa.generate.x", not wrong, mod.path, fn.lineno,
+             extracted="; ".join(wrong[:3]) if wrong else "%d values of c around multiples of q and q-1: x = (c mod (q-1)) + 1, c drawn with N+64 bits" % n,
+             expected="FIPS 186-4 B.1.1: 1 <= x <= q-1 for every c (x = c mod q can be 0 and is biased differently)")
